@@ -11,6 +11,15 @@ def run(tier, seed):
     n = common.validate_api(chk, tr, key_of=lambda e: "binding:" + e.get("ev", ""))
     chk.leg("trace validation (Layer A judge)", events=n,
             alternatives=["every re-split of ctx||M", "every other mode / pre-hash function", "pure <-> pre-hash with M = OID||PH(M)", "context moved into the message"])
+    # binding follows from (i) the code's message representative IS the specification's FormatMsg on a grid of
+    # (mode, ctx, M) -- Sign = Sign_internal o FormatMsg and Verify = Verify_internal o FormatMsg, judged by Layer F --
+    # and (ii) FormatMsg is injective (MC_Format below)
+    import os
+    chk2 = vlib.build_harness("checked")
+    fdir = os.path.join(chk.workdir, "f")
+    for s in (44, 65, 87):
+        vlib.drive(chk2, "sign", sets=s, seed=seed + 5, nfull=0, nfactor=28 if tier == "quick" else 112, allctx=0 if tier == "quick" else 1, out=fdir)
+    common.validate_f(chk, {s: os.path.join(fdir, "sign_%d.ndjson" % s) for s in (44, 65, 87)}, nproc=9, chunks_per_set=3, key_of=lambda m: "format:" + m["ev"])
     common.mc_leg(chk, "MC_Format", tier=tier, workers=12)
     for v in ("nodom", "nolen"):
         common.mc_leg(chk, "MC_Format", cfg=common.MC_DIR + "/MC_Format_%s.cfg" % v, expect_violation=True, workers=4)
